@@ -1,11 +1,85 @@
 /-
-C04 — failed execution leaves no trace. Property theorems only (helper lemmas: Proofs/Exec*.lean).
-Model: NeoModel/Model/Exec.lean (`sp` = transactional specification, `im` = the code as written).
+C04 — failed execution leaves no trace. Property theorems only (helper lemmas: Proofs/ExecSim.lean,
+Proofs/ExecSpec.lean). Model: NeoModel/Model/Exec.lean — `sp`/`specRun` is the transactional
+specification, `im`/`implRun` the code as written (lazy DAO layering of contract/call.go, the
+unload/commit rule and exception unwinding of vm.go, the per-transaction layer of blockchain.go).
 -/
 import NeoModel.Model.Exec
+import NeoModel.Proofs.ExecSim
+import NeoModel.Proofs.ExecSpec
 namespace NeoModel.Exec
 
 deriving instance DecidableEq for Outcome
+
+/-! ### 1. The lazy layering is sound
+
+Full statement (DESIGN C04.1):  `∀ pre t, (implRun pre t).eff = (specRun pre t).eff`.
+It does NOT hold for the code as written, see `impl_refines_spec_fails` below. What is proved is the
+statement for every tree in which no FINALLY block makes a contract or native call (`safe`): any
+nesting of calls, internal calls, try/catch/finally, reads, native transfers with payment callbacks
+and setters, any call flags, throw/abort anywhere, any pre-state. Missing for the full statement:
+nothing that can be proved — the remaining trees are exactly where the commit rule of
+`unloadContext` (`commit = uncaughtException == nil`) differs from the specification. -/
+
+theorem impl_refines_spec_partial (pre : Log) (t : Tree) (hs : safe t = true) :
+    (implRun pre t).eff = (specRun pre t).eff := by
+  have hR : R ⟨[], [pre], [], false⟩ ⟨pre, [], false⟩ := ⟨by simp [ISt.view, flatten], rfl, rfl⟩
+  have h := sim t rootCtx ⟨[], [pre], [], false⟩ ⟨pre, [], false⟩ hs hR (Or.inl rfl)
+  unfold implRun specRun
+  simp only [rootCtx] at h
+  cases hr : im t rootCtx ⟨[], [pre], [], false⟩ with
+  | norm s' =>
+    simp only [rootCtx] at hr
+    rw [hr] at h
+    obtain ⟨S', e1, e2, _⟩ := h
+    simp only [entryId] at e1 ⊢
+    rw [e1]
+    simp [Outcome.eff, e2.1, e2.2.1]
+  | thrown s' =>
+    simp only [rootCtx] at hr
+    rw [hr] at h
+    exact absurd h.1 (by simp)
+  | fault s' =>
+    simp only [rootCtx] at hr
+    rw [hr] at h
+    simp only [entryId] at h ⊢
+    rcases h with ⟨S', e1⟩ | ⟨_, S', e1⟩ <;> rw [e1] <;> simp [Outcome.eff]
+
+/-- a tree with everything in it: a caller with TRY whose callee writes, notifies, moves GAS to a
+    contract whose payment callback writes, calls a third contract and throws; catch + finally
+    (without calls); a read-only call; a setter; the hypothesis `safe` holds and the run halts. -/
+def demoTree : Tree :=
+  .call 0 Flags.all (.seq (.put 1 2) (.seq (.notify 1)
+    (.seq (.try_ (.call 1 Flags.all (.seq (.put 1 3) (.seq (.notify 2)
+              (.seq (.native (.transfer 0 2 3 true) Flags.all (.put 0 7))
+              (.seq (.call 2 Flags.all (.put 0 9)) .throw)))))
+            true (.seq (.notify 3) (.call 3 (Flags.ofNat 5) (.ifp 1 .throw)))
+            true (.put 3 3))
+    (.seq (.native (.setFee 777) Flags.all .skip) (.put 2 2)))))
+
+def demoPre : Log := [.set (gasTab, 1) 10, .set (3, 0) 1, .set (policyTab, 0) 1000]
+
+example : safe demoTree = true := by decide
+example : (implRun demoPre demoTree).eff = (specRun demoPre demoTree).eff :=
+  impl_refines_spec_partial _ _ (by decide)
+example : (specRun demoPre demoTree).halt = true := by decide
+example : (specRun demoPre demoTree).events = [(0, 1), (0, 3)] := by decide
+
+/-- The full statement fails on the code as written (known finding `finally-call-rollback`):
+    a callee that completes inside a FINALLY block which runs for a pending exception is unloaded
+    with `commit = false`; its write (1,3) and its notification (1,7) are lost although the
+    exception is caught later and the finally block's own write (0,3) is kept. -/
+def finallyCallWitness : Tree :=
+  .call 0 Flags.all (.try_ (.try_ .throw false .skip true (.seq (.call 1 Flags.all (.seq (.put 3 3) (.notify 7))) (.put 3 4)))
+    true (.notify 8) false .skip)
+
+theorem impl_refines_spec_fails : ∃ pre t, (implRun pre t).eff ≠ (specRun pre t).eff :=
+  ⟨[], finallyCallWitness, by decide⟩
+
+example : (implRun [] finallyCallWitness).eff = (true, [.set (0, 3) 4], [(0, 8)]) := by decide
+example : (specRun [] finallyCallWitness).eff = (true, [.set (0, 3) 4, .set (1, 3) 3], [(1, 7), (0, 8)]) := by decide
+
+/-! ### 2. A faulting transaction changes nothing but the fees -/
 
 /-- A transaction that faults under the implementation model leaves the block cache exactly as
     it was and delivers no notification. -/
@@ -36,5 +110,85 @@ example :
     let good2 : Tx := ⟨2, .call 1 Flags.all (.put 2 2)⟩
     (implRun (execAll (burnAll [.set (gasTab, senderAcc) 100] ([good1] ++ bad :: [good2])) [good1]) bad.tree).halt = false := by
   decide
+
+/-- and a transaction that halts has all of its effects applied: the block cache after it is the
+    specification's final state. -/
+theorem halt_applies_all (pre : Log) (t : Tree) (hs : safe t = true) (S : St)
+    (h : sp t entryId Flags.all ⟨pre, [], false⟩ = .norm S) :
+    (implRun pre t).eff = (true, S.σ, S.ev) := by
+  rw [impl_refines_spec_partial _ _ hs]
+  unfold specRun
+  rw [h]
+  rfl
+
+example : (implRun demoPre demoTree).halt = true := by
+  have := impl_refines_spec_partial demoPre demoTree (by decide)
+  have h2 : (specRun demoPre demoTree).halt = true := by decide
+  simp only [Outcome.eff, Prod.mk.injEq] at this
+  rw [this.1]; exact h2
+
+/-! ### 3. A caught exception rolls back exactly the callee -/
+
+/-- Second sentence of C04. In a contract `c0` that does `a`, then calls `c1` inside try/catch,
+    then `d`: if the callee (and whatever it called) ends with an exception, the transaction has
+    exactly the effect of the program without the call — every storage change, token movement,
+    setting and notification of the callee is undone, `a` (before) and `cat`, `d` (after) are kept.
+    `hthrow` says that the callee throws on the state `a` leaves (in the specification, where a
+    callee is just a function of the caller's state). -/
+theorem catch_rolls_back_callee (pre : Log) (c0 c1 : Nat) (fl0 fl1 : Flags) (a body cat d : Tree)
+    (hs : safe (.call c0 fl0 (.seq a (.seq (.try_ (.call c1 fl1 body) true cat false .skip) d))) = true)
+    (hf : ((Flags.all.and fl0).r && (Flags.all.and fl0).c) = true)
+    (Sa S' : St) (ha : sp a c0 (Flags.all.and fl0) ⟨pre, [], false⟩ = .norm Sa)
+    (hthrow : sp body c1 ((Flags.all.and fl0).and fl1) Sa = .thrown S') :
+    (implRun pre (.call c0 fl0 (.seq a (.seq (.try_ (.call c1 fl1 body) true cat false .skip) d)))).eff =
+      (implRun pre (.call c0 fl0 (.seq a (.seq cat d)))).eff := by
+  have hs2 : safe (.call c0 fl0 (.seq a (.seq cat d))) = true := by
+    simp only [safe, Bool.and_eq_true] at hs ⊢
+    exact ⟨hs.1, hs.2.1.1.1.2, hs.2.2⟩
+  rw [impl_refines_spec_partial _ _ hs, impl_refines_spec_partial _ _ hs2]
+  have hexc : Sa.exc = false := sp_norm_exc a _ _ _ _ rfl ha
+  have ht := sp_try_call_thrown c1 fl1 body cat c0 (Flags.all.and fl0) Sa S' hf hexc hthrow
+  have : sp (.call c0 fl0 (.seq a (.seq (.try_ (.call c1 fl1 body) true cat false .skip) d))) entryId Flags.all ⟨pre, [], false⟩ =
+      sp (.call c0 fl0 (.seq a (.seq cat d))) entryId Flags.all ⟨pre, [], false⟩ := by
+    apply sp_call_congr
+    rw [sp_seq_norm ha, sp_seq_norm ha]
+    exact sp_seq_congr ht
+  unfold specRun
+  rw [this]
+
+/-- The same, with the kept effects spelled out: the final ledger state and notification list are
+    those of `a`, then `cat`, then `d`, computed without the failed callee. -/
+theorem before_after_kept (pre : Log) (c0 c1 : Nat) (fl0 fl1 : Flags) (a body cat d : Tree)
+    (hs : safe (.call c0 fl0 (.seq a (.seq (.try_ (.call c1 fl1 body) true cat false .skip) d))) = true)
+    (hf : ((Flags.all.and fl0).r && (Flags.all.and fl0).c) = true)
+    (Sa S' Sc Sd : St) (ha : sp a c0 (Flags.all.and fl0) ⟨pre, [], false⟩ = .norm Sa)
+    (hthrow : sp body c1 ((Flags.all.and fl0).and fl1) Sa = .thrown S')
+    (hcat : sp cat c0 (Flags.all.and fl0) Sa = .norm Sc) (hd : sp d c0 (Flags.all.and fl0) Sc = .norm Sd) :
+    (implRun pre (.call c0 fl0 (.seq a (.seq (.try_ (.call c1 fl1 body) true cat false .skip) d)))).eff =
+      (true, Sd.σ, Sd.ev) := by
+  rw [catch_rolls_back_callee pre c0 c1 fl0 fl1 a body cat d hs hf Sa S' ha hthrow]
+  have hs2 : safe (.call c0 fl0 (.seq a (.seq cat d))) = true := by
+    simp only [safe, Bool.and_eq_true] at hs ⊢
+    exact ⟨hs.1, hs.2.1.1.1.2, hs.2.2⟩
+  apply halt_applies_all _ _ hs2
+  apply sp_call_norm rfl
+  rw [sp_seq_norm ha, sp_seq_norm hcat]
+  exact hd
+
+-- non-vacuity: before = put/notify, callee = write + notify + GAS transfer with a writing payment
+-- callback + nested call + throw, catch = notify, after = put
+example :
+    let a : Tree := .seq (.put 1 2) (.notify 1)
+    let body : Tree := .seq (.put 1 3) (.seq (.notify 2) (.seq (.native (.transfer 0 2 3 true) Flags.all (.put 0 7))
+      (.seq (.call 2 Flags.all (.put 0 9)) .throw)))
+    (implRun demoPre (.call 0 Flags.all (.seq a (.seq (.try_ (.call 1 Flags.all body) true (.notify 3) false .skip) (.put 2 2))))).eff =
+      (true, [.set (0, 2) 2, .set (0, 1) 2] ++ demoPre, [(0, 1), (0, 3)]) :=
+  before_after_kept demoPre 0 1 Flags.all Flags.all _ _ _ _ (by decide) rfl
+    ⟨.set (0, 1) 2 :: demoPre, [(0, 1)], false⟩
+    ⟨[.set (2, 0) 9, .set (2, 0) 7, .set (gasTab, 2) 3, .set (gasTab, 1) 7, .set (1, 1) 3, .set (0, 1) 2] ++ demoPre,
+      [(0, 1), (1, 2), (gasTab, 3)], true⟩
+    ⟨.set (0, 1) 2 :: demoPre, [(0, 1), (0, 3)], false⟩
+    ⟨[.set (0, 2) 2, .set (0, 1) 2] ++ demoPre, [(0, 1), (0, 3)], false⟩
+    rfl rfl rfl rfl
 
 end NeoModel.Exec
